@@ -140,7 +140,7 @@ def warnings_case(ctx):
         elif k % 3 == 2:
             # residues joined only by a bond that a by_atom_id link makes (ring closure / end group attached by atom number)
             ff = ffgen.gen_ff(rng, uniform_nrexcl=1, nlinks=rng.randint(0, 1))
-            g = ffgen.gen_resgraph(rng, ff, nres=rng.randint(2, 5), shape=rng.choice(['path', 'ring']))
+            g = ffgen.gen_resgraph(rng, ff, nres=rng.randint(2, 5), shape='path')     # -seq gives a linear residue graph
             by = {b['name']: b for b in ff['blocks']}
             first, off = [], 1
             for n in g['resnames']:
